@@ -230,6 +230,17 @@ def dispatch_list(P: Program, key: str) -> List[Tuple[str, str]]:
             inner = sorted(G.canon_atom(b.ast, b.pol) for b in f.cfg.guard_nodes(f.nid(c))
                            if loop and any(x is loop[0] for x in S._ancestors_list(b.ast)))
             ctor = c.args[1]
+            if isinstance(ctor, ast.Name):
+                # the callable was chosen earlier and is passed through a local: one arm per definition that reaches the call
+                from ..facts import reaching_defs
+                for d in reaching_defs(f, c, ctor.id):
+                    v = d.value
+                    g2 = sorted(G.canon_atom(b.ast, b.pol) for b in f.cfg.guard_nodes(f.nid(d))
+                                if loop and any(x is loop[0] for x in S._ancestors_list(b.ast)))
+                    cn = v.func.id if isinstance(v, ast.Call) and isinstance(v.func, ast.Name) else norm(v)
+                    ok2 = isinstance(v, ast.Call) and len(v.args) == 1 and norm(v.args[0]) == lv
+                    out.append((tuple(sorted(set(inner) | set(g2))), cn, ok2, c, lv))
+                continue
             cname = ctor.func.id if isinstance(ctor, ast.Call) and isinstance(ctor.func, ast.Name) else norm(ctor)
             arg_ok = isinstance(ctor, ast.Call) and len(ctor.args) == 1 and norm(ctor.args[0]) == lv
             out.append((tuple(inner), cname, arg_ok, c, lv))
